@@ -39,11 +39,25 @@ def _block(draw, bits=None):
         n = draw(st.integers(1, 40))
         return {'shape': 'sparse-list', 'values': draw(st.lists(val, min_size=n, max_size=n)), 'bits': bits}
     base = draw(st.one_of(st.integers(0, 10), st.integers(0, 65500)))
-    offs = draw(st.lists(st.integers(0, 40), min_size=1, max_size=25, unique=True))
-    keys = [base + o for o in offs]          # insertion order as generated: the first key need not be the smallest
     if draw(st.booleans()):
+        offs = draw(st.lists(st.integers(0, 40), min_size=1, max_size=25, unique=True))
+    else:
+        # a few runs of consecutive addresses (so that multi-cell ranges exist) with gaps between them
+        offs, pos = [], 0
+        for _ in range(draw(st.integers(1, 4))):
+            pos += draw(st.integers(0, 3))
+            n = draw(st.integers(1, 7))
+            offs.extend(range(pos, pos + n))
+            pos += n + 1
+    keys = [base + o for o in offs]
+    order = draw(st.sampled_from(['sorted', 'reversed', 'shuffled', 'shuffled']))
+    if order == 'sorted':
         keys = sorted(keys)
-    return {'shape': 'sparse-dict', 'keys': keys, 'values': draw(st.lists(val, min_size=len(keys), max_size=len(keys))), 'bits': bits}
+    elif order == 'reversed':
+        keys = sorted(keys, reverse=True)
+    else:
+        keys = draw(st.permutations(sorted(keys)))      # insertion order of the dict: the first key need not be the smallest
+    return {'shape': 'sparse-dict', 'keys': list(keys), 'values': draw(st.lists(val, min_size=len(keys), max_size=len(keys))), 'bits': bits}
 
 
 def _extent(b):
@@ -62,7 +76,7 @@ def _ops(draw, blk, minlen=1, maxlen=14, with_reset=True):
     lo, hi = min(keys), max(keys)
     val = st.booleans() if blk['bits'] else st.integers(0, 0xFFFF)
     addr = st.one_of(st.integers(max(0, lo - 2), hi + 2), st.sampled_from(keys), st.sampled_from([0, 65535, lo, hi, max(0, lo - 1), hi + 1]))
-    count = st.one_of(st.integers(1, 4), st.integers(1, len(keys) + 3))
+    count = st.one_of(st.integers(1, 4), st.integers(1, 4), st.integers(1, len(keys) + 3))
     one = st.one_of(
         st.tuples(st.just('validate'), addr, count),
         st.tuples(st.just('get'), addr, count),
@@ -117,11 +131,13 @@ def _server_case(draw):
     ident = st.one_of(st.integers(-1, 300), st.sampled_from([0, 1, 247, 248, 255, 256]))
     initial = draw(st.lists(st.integers(0, 247), min_size=1, max_size=4, unique=True))
     reg = st.sampled_from(initial)
+    # multi-unit context created without a dictionary and filled by registration only
+    no_dict = (not single) and draw(st.integers(0, 3)) == 0
     ident = st.one_of(ident, reg, reg)
     one = st.one_of(st.tuples(st.just('get'), ident), st.tuples(st.just('contains'), ident),
                     st.tuples(st.just('set'), ident), st.tuples(st.just('del'), ident), st.tuples(st.just('slaves')),
                     st.tuples(st.just('get'), reg), st.tuples(st.just('get'), reg), st.tuples(st.just('del'), reg))
-    return {'t': 'server', 'single': single, 'initial': initial,
+    return {'t': 'server', 'single': single, 'initial': initial, 'no_dict': no_dict,
             'ops': [list(x) for x in draw(st.lists(one, min_size=1, max_size=12))]}
 
 
@@ -148,6 +164,10 @@ def sweeps(tier):
             for c in range(1, nk + 2):
                 cases.append({'t': 'block', 'block': {'shape': 'sparse-dict', 'keys': keys, 'values': [9] * len(keys), 'bits': False},
                               'ops': [['validate', a, c], ['set', a, [5] * c], ['get', a, c]]})
+                if c >= 2:
+                    # distinct values, keys inserted in descending order: a read has to come back in address order
+                    cases.append({'t': 'block', 'block': {'shape': 'sparse-dict', 'keys': keys[::-1], 'values': [100 + k for k in keys[::-1]], 'bits': False},
+                                  'ops': [['get', a, c], ['set', a, [200 + i for i in range(c)]], ['get', a, c]]})
     out.append(('sparse-all-key-subsets', cases, True))
     return out
 
@@ -327,6 +347,15 @@ def _run_server(case):
     if single:
         ctx = ModbusServerContext(slaves='ctx-init', single=True)
         model = {'only': 'ctx-init'}
+    elif case.get('no_dict'):
+        labels.append('built-without-dict')
+        ctx = ModbusServerContext(single=False)
+        model = {}
+        if sorted(ctx.slaves()) != []:
+            return Outcome([Disc('registry', 'a multi-unit context created without a dictionary starts with registered ids %r' % sorted(ctx.slaves()))], labels, True)
+        for i in case['initial']:
+            ctx[i] = 'ctx-%d' % i
+            model[i] = 'ctx-%d' % i
     else:
         init = dict((i, 'ctx-%d' % i) for i in case['initial'])
         ctx = ModbusServerContext(slaves=dict(init), single=False)
